@@ -498,7 +498,15 @@ impl<'c, 'a, 'ast> Visit<'ast> for BodyVisitor<'c, 'a> {
                             let fc = match &fm.args[1] { Expr::Closure(c) if c.inputs.len() == 2 => c, _ => return None };
                             let t = match &fc.inputs[0] { syn::Pat::Ident(pi) if pi.by_ref.is_none() && pi.subpat.is_none() => pi.ident.to_string(), _ => return None };
                             let p = match &fc.inputs[1] { syn::Pat::Ident(pi) if pi.by_ref.is_none() && pi.subpat.is_none() => pi.ident.to_string(), _ => return None };
-                            let etxt = self.cx.f.slice(fc.body.span()).to_string();
+                            // E is MOVED into the loop as text; the always-on expression rewrites (R4 `&a + &b` -> `core::ops::Add::add(&a, &b)`, ..) are applied to it
+                            // first: its edits are collected separately and rendered into the moved text (identical to the source text when no rule fires).
+                            let etxt = {
+                                let n0 = self.cx.edits.len();
+                                self.visit_expr(&fc.body);
+                                let mut sub: Vec<Edit> = self.cx.edits.drain(n0..).collect();
+                                let (fbs, fbe) = self.cx.f.range(fc.body.span());
+                                render(self.cx.f, fbs, fbe, &mut sub).0
+                            };
                             // split the raw lines
                             let mut parts: Vec<Vec<String>> = vec![vec![]];
                             for ln in &mf.lines {
